@@ -1,6 +1,7 @@
 package kvs
 
 import (
+	"errors"
 	"fmt"
 	"math/rand"
 	"path/filepath"
@@ -53,6 +54,7 @@ func genC02(rng *rand.Rand, tier string) *core.Plan {
 	}
 	p.Cfg["maporder"] = rng.Intn(2) // tape-chosen iteration order of Go maps in the code under test
 	p.Cfg["dblclose"] = rng.Intn(2)
+	p.Cfg["ioerr_pm"] = []int{0, 0, 0, 60, 250}[rng.Intn(5)] // opening (mapping) a table file fails with an I/O error: the read fails, nothing else may
 	return p
 }
 
@@ -81,6 +83,7 @@ type c02 struct {
 	createdBy map[int]int64     // simulator task id -> last table it created
 	nextTok   uint64
 	rollup    bool
+	openFails int // injected failures of opening a table file so far
 }
 
 func (h *c02) tick() int { h.clock++; return h.clock }
@@ -257,7 +260,16 @@ func (h *c02) readerTask(r int, ops []core.Op) {
 		}
 		h.held[r] = hs
 		c.Sim.Event("reader %d snapshot version=%d files=%v", r, snap.GetCurrent().ID(), sortedKeys(hs.files))
+		fails0 := h.openFails
 		first, err := h.read(snap, hs, op.B)
+		if err != nil && h.openFails > fails0 {
+			// the read failed because a table file could not be opened (injected): the reader gives up this snapshot;
+			// everybody else's files must stay alive all the same
+			c.Sim.Probe("read-failed-by-open-error")
+			snap.Close()
+			delete(h.held, r)
+			continue
+		}
 		if err != nil {
 			c.Violate("C02/snapshot-read-failed", "reader %d first read: %v", r, err)
 			snap.Close()
@@ -304,7 +316,12 @@ func (h *c02) readerTask(r int, ops []core.Op) {
 			} else {
 				c.Sim.YieldNow()
 			}
+			fails1 := h.openFails
 			again, err := h.read(snap, hs, (op.B+i+1)%3)
+			if err != nil && h.openFails > fails1 {
+				c.Sim.Probe("read-failed-by-open-error")
+				break
+			}
 			if err != nil {
 				c.Violate("C02/snapshot-read-failed", "reader %d re-read %d: %v", r, i+1, err)
 				break
@@ -348,10 +365,21 @@ func runC02(c *core.RunCtx) {
 	kv.VerifSetFS(h.pre)
 	version.VerifSetFS(h.pre)
 	table.VerifSetFS(h.pre)
+	if pm := c.Plan.C("ioerr_pm", 0); pm > 0 {
+		table.VerifSetFSFail(func(op, path string) error {
+			if op != "map" || !sim.Tape.Chance(float64(pm)/1000) {
+				return nil
+			}
+			h.openFails++
+			sim.Fault("io-error@open-table")
+			return errors.New("injected: input/output error")
+		})
+	}
 	defer func() {
 		kv.VerifSetFS(nil)
 		version.VerifSetFS(nil)
 		table.VerifSetFS(nil)
+		table.VerifSetFSFail(nil)
 	}()
 	mgr := kv.VerifNewStoreManager()
 	kv.InitStoreManager(mgr)
